@@ -43,11 +43,13 @@ for i in ids:
       "technique": tech,
     })
 na=[{"property_id":i,"reason":"check not built yet in this session (work in progress; see DESIGN.md)"} for i in ids if i not in claimed]
+ENG={'E1':"proptest-driven model-based history engine (Vec<AbstractOp> + interpreter + MVCC model + auditors), 16 workers, shrinking to replay JSON",
+'E1t':"proptest table-level round-trip engine (tablecheck.rs)",'E1f':"proptest FIFO engine with virtual clock (fifo.rs)",
+'E2/E3':"in-binary libc interposition (shim.rs) + crash-image synthesiser (crash.rs) / fault planner (fault.rs)",
+'E3':"corruption enumerator with isolated worker processes (corrupt.rs)",'E4':"deterministic one-baton schedule explorer over real threads with verif_hooks yield points (sched.rs)"}
 m={"version":1,"setup_cmd":"./setup.sh",
-"hooks":{"guard":"cargo feature verif_hooks","enable":"harness built with cargo feature `hooks` which enables lsm-tree/verif_hooks","baseline_off_cmd":"cd /repo && cargo test --workspace --no-fail-fast --offline","source_commits":hook_commits,"add_only":True},
-"engines":[
- {"name":"E1","path":"harness/lsmv/src/{gen,exec,model,audit,runner}.rs","serves_properties":[i for i in ids if i in claimed and claimed[i][1]=='E1'],"kind_free_text":"proptest-driven model-based history engine (Vec<AbstractOp> + interpreter + MVCC model + auditors), 16 workers, shrinking to replay JSON"},
-],
+"hooks":{"guard":"cargo feature verif_hooks","enable":"harness built with cargo feature `hooks` which enables lsm-tree/verif_hooks","baseline_off_cmd":"cd /repo && CARGO_NET_OFFLINE=true cargo nextest run --workspace --no-fail-fast --offline || (cd /repo && cargo test --workspace --no-fail-fast --offline)","source_commits":hook_commits,"add_only":True},
+"engines":[{"name":e,"path":"harness/lsmv/src","serves_properties":[i for i in ids if i in claimed and claimed[i][1]==e],"kind_free_text":t} for e,t in ENG.items()],
 "checks":checks,
 "not_applicable":na,
 "notes":"All checks: ./check <ID> quick|thorough|replay. Exit 2 = harness problem (build failure, watchdog), never a violation. known_findings.json lists fixed/known findings and is never written at run time."}
